@@ -53,6 +53,9 @@ DESIGN_REF = 'DESIGN.md section 5, C05'
 BUDGET = {'quick': 5000, 'thorough': 100000}
 K_TOL = 64
 TOLERANCES = {
+    'floor': 'every comparison has the absolute floor 1e6 * tiny(float32 or '
+             'float64, by working precision): subnormal results carry no '
+             'relative accuracy',
     'gram': '||N^T G_X - G_Y M||_F <= 64*eps*dim*scale; eps = coarsest '
             'floating dtype among the leaves of domain and range, dim = '
             'max(rdim X, rdim Y), scale = max(||N^T G_X||_F, ||G_Y M||_F, '
@@ -414,6 +417,10 @@ def check_operator(node, eng, bound_children):
     node.eps = eps
     fft = cls in FFT_CLASSES or 'Fourier' in cls
     ktol = K_TOL * eps * dim * ((1 + np.log2(max(dim, 2))) if fft else 1.0)
+    # absolute floor far below any generated magnitude: results in the
+    # subnormal range of the working precision carry no relative accuracy
+    floor = 1e6 * float(np.finfo(np.float32 if eps > 1e-10
+                                 else np.float64).tiny)
 
     eng.strata += ['cls:' + cls, 'g:' + g, 'dom:' + wkind(X),
                    'ran:' + wkind(Y), 'field:' + fkind(X) + fkind(Y)]
@@ -437,7 +444,7 @@ def check_operator(node, eng, bound_children):
         and n > 0 and m > 0
     clinear = both_complex and _fro(
         M @ flat.complex_structure(X) - flat.complex_structure(Y) @ M) <= \
-        ktol * max(bound, 1e-300)
+        max(ktol * bound, floor)
     if both_complex:
         reg += ',lin=' + ('C' if clinear else 'R')
     tail = '{}|{}'.format(cls, reg)
@@ -447,7 +454,9 @@ def check_operator(node, eng, bound_children):
     # linear at all?  A(0) = 0 and A(x) = M x for one dense vector
     x = np.cos(np.arange(1, n + 1) * 1.7) * 2.0
     Ax = flat.flat(eng.apply(A, flat.unflat(x, X), Y, 'A', tail), Y)
-    lin_tol = ktol * max(bound * _fro(x), 1e-300) * 4
+    # (fresh elements for every call: an operator overwriting its input is
+    # C03's business and must not leak into this oracle)
+    lin_tol = max(ktol * bound * _fro(x) * 4, floor)
     if _fro(off) > lin_tol or _fro(Ax - M @ x) > lin_tol:
         raise Violation('C05|not-linear|' + tail,
                         'operator is flagged linear but A(0) = {:.3g}, '
@@ -519,7 +528,7 @@ def check_operator(node, eng, bound_children):
     rhs = GY @ M
     scale = max(_fro(lhs), _fro(rhs), _fro(GY) * bound, 1e-300)
     err = _fro(lhs - rhs)
-    tol = ktol * scale
+    tol = max(ktol * scale, floor)
     if _fro(offa) > tol:
         raise Violation('C05|not-linear|' + tail,
                         'A.adjoint(0) = {:.3g}'.format(_fro(offa)))
@@ -543,11 +552,13 @@ def check_operator(node, eng, bound_children):
     # ---- one direct pair (the form in which the property is stated) -------
     xv = np.cos(np.arange(1, n + 1) * 1.7) * 2.0
     yv = np.sin(np.arange(1, m + 1) * 0.9 + 0.3) * 1.5
-    xe, ye = flat.unflat(xv, X), flat.unflat(yv, Y)
-    left = float(np.real(flat.sinner(Y, eng.apply(A, xe, Y, 'A', tail), ye)))
+    left = float(np.real(flat.sinner(
+        Y, eng.apply(A, flat.unflat(xv, X), Y, 'A', tail),
+        flat.unflat(yv, Y))))
     right = float(np.real(flat.sinner(
-        X, xe, eng.apply(adj, ye, X, 'A.adjoint', tail))))
-    pair_tol = 4 * ktol * max(scale * _fro(xv) * _fro(yv), 1e-300)
+        X, flat.unflat(xv, X),
+        eng.apply(adj, flat.unflat(yv, Y), X, 'A.adjoint', tail))))
+    pair_tol = max(4 * ktol * scale * _fro(xv) * _fro(yv), floor)
     if not abs(left - right) <= pair_tol:
         raise Violation('C05|pair|' + tail,
                         'matrices satisfy the Gram identity but Re<Ax,y> = '
@@ -560,7 +571,7 @@ def check_operator(node, eng, bound_children):
         if clinear:
             eng.strata.append('complex-linear')
             c = _fro(N @ JY - JX @ N)
-            if not c <= ktol * max(_fro(N), bound, 1e-300):
+            if not c <= max(ktol * max(_fro(N), bound), floor):
                 raise Violation('C05|complex-linear|' + tail,
                                 'A is complex-linear, A.adjoint is not: '
                                 '||N J - J N|| = {:.3g}'.format(c))
@@ -607,7 +618,7 @@ def check_operator(node, eng, bound_children):
             'A.adjoint.adjoint cannot be evaluated: {!r} [{}]'.format(
                 e, site))
     e2 = _fro(M2 - M) + _fro(off2)
-    if not e2 <= ktol * max(bound, 1e-300) * 2:
+    if not e2 <= max(ktol * bound * 2, floor):
         raise Violation('C05|adjadj|' + tail,
                         'A.adjoint.adjoint does not act like A: ||M2 - M||_F '
                         '= {:.4g} (||M|| = {:.4g}); A = {!r}'.format(
